@@ -109,6 +109,7 @@ def _c05r(f): try f catch {"__c05_err": (if type == "string" then . else tojson 
         elif $op.op == "tobitsp" then _c05r($v | tobits($op.p))
         elif $op.op == "tobytesp" then _c05r($v | tobytes($op.p))
         elif $op.op == "fmt" then _c05r($v | tovalue({bits_format: $op.f, sizebase: $op.sb}))
+        elif $op.op == "ufmt" then _c05r($v | [(try length catch null), (try tostring catch null), (try test("a") catch null), (try ascii_downcase catch null)] as $_ | $v | tovalue({bits_format: $op.f, sizebase: $op.sb}))
         elif $op.op == "rfmt8" then _c05r($v | tobytesrange | tovalue({bits_format: $op.f, sizebase: $op.sb}))
         elif $op.op == "rfmt1" then _c05r($v | tobitsrange | tovalue({bits_format: $op.f, sizebase: $op.sb}))
         elif $op.op == "agg" then _c05r($v | tovalue({bits_format: $op.f, sizebase: $op.sb}))
@@ -154,7 +155,7 @@ func (d opDesc) jq(id int) map[string]any {
 		}
 	case "aggd":
 		m["op"] = "aggd"
-	case "fmt", "rfmt8", "rfmt1", "agg", "twice":
+	case "fmt", "ufmt", "rfmt8", "rfmt1", "agg", "twice":
 		sb, _ := strconv.Atoi(ps[2])
 		m["op"] = ps[0]
 		m["f"] = ps[1]
@@ -908,6 +909,12 @@ func planBase(rc *rec, r *hlib.Rand, level int) ([]opDesc, bool) {
 		} else {
 			ops = append(ops, opDesc{"fmt:md5:10"}, opDesc{"fmt:truncate:10"}, opDesc{fmt.Sprintf("fmt:snippet:%d", pickSizebase(r))})
 			ops = append(ops, opDesc{fmt.Sprintf("fmt:%s:10", allFormats[r.Intn(4)])})
+		}
+		// the same value instance used as a STRING first (length, tostring, test, ascii_downcase), then rendered:
+		// rendering is a function of (buffer, range, options), not of what the value was used for before
+		ops = append(ops, opDesc{"ufmt:string:10"})
+		if !big {
+			ops = append(ops, opDesc{fmt.Sprintf("ufmt:%s:10", allFormats[r.Intn(len(allFormats))])})
 		}
 	}
 	if !big {
